@@ -210,8 +210,15 @@ func runC13(ctx *Ctx) {
 			}
 			st.Reopen()
 			probes, pd := c13Probes(st, t, nil)
+			var mon []string
+			for _, d := range append(append([]*SOp{}, done...), pd...) {
+				if d.Bad != "" {
+					mon = append(mon, strings.Replace(d.Bad, "c12-peer-record", "c13-peer-record", 1))
+					break
+				}
+			}
 			ctx.Emit(Case{I: i, Kind: "reopen", Coq: c13Case(acked, "None", "None", true, probes),
-				Desc: c13Desc{Mode: "reopen", Script: done, Acked: len(done), Probes: pd}})
+				Desc: c13Desc{Mode: "reopen", Script: done, Acked: len(done), Probes: pd}, Monitor: mon})
 		})
 	}
 
